@@ -402,7 +402,7 @@ private:
 private:
 
     // the row pitch must be multiple of 4 bytes
-    int _pitch;
+    std::ptrdiff_t _pitch;
 
     std::vector<byte_t> _buffer;
     detail::mirror_bits <std::vector<byte_t>, std::true_type> _mirror_bits;
